@@ -11,7 +11,9 @@
 //	       X=<8 flags>  save("c14") bytes = S, load("c14") globals = W's, AutoSave bytes = S, AutoLoad globals = L's; then the
 //	                    session goes on (every other user global deleted, the others set to 1) and is saved AGAIN to the same
 //	                    files: c14.gr bytes = SaveGlobals' own bytes, load("c14") globals = those of evaluating these bytes
-//	                    whole, .gr bytes = SaveGlobals' bytes, AutoLoad globals = those of evaluating these bytes line by line
+//	                    whole, .gr bytes = SaveGlobals' bytes, AutoLoad globals = those of evaluating these bytes line by line;
+//	                    5 more flags: after each of 5 further steps of a session that change only the type of an element deep
+//	                    inside a value (new value == old value), or a large array in place, AutoSave's .gr = SaveGlobals' bytes
 //
 // globals: `name=<value>` joined by `,`, sorted by name; a name with a leading `*` is one of the
 // identifiers pre-seeded by extensions.Init.  value: n t f i<dec> d<16 hex bits>~<hex Inspect text>
@@ -444,6 +446,20 @@ func saveloadChildCase(input string) (res string) {
 			_ = os.Remove(t)
 		}
 	}
+	// a session whose later steps change only the TYPE of an element deep inside a value (the new value compares
+	// equal to the old one), or one element of a large array in place: every AutoSave still has to write the state
+	_ = os.Remove(".gr")
+	s9, out9 := slNewState(0)
+	for _, st := range []string{`zq1 = [1, 2]`, `zq2 = {"a": [3, {"b": 4}]}`, `zq3 = [0, 1, 2, 3, 4, 5, 6, 7, 8, 9]`, `zq4 = 1`} {
+		slEval(s9, out9, st)
+	}
+	_ = repl.AutoSave(s9, repl.Options{AutoSave: true})
+	for _, st := range []string{`zq1 = [1.0, 2]`, `zq2 = {"a": [3, {"b": 4.0}]}`, `zq3[1] = 77`, `zq4 = 1.0`, `zq1 = [1.0, 2]`} {
+		slEval(s9, out9, st)
+		want9, _ := slSave(s9)
+		_ = repl.AutoSave(s9, repl.Options{AutoSave: true})
+		second += b2s(readOpt(".gr") == hx(want9))
+	}
 	return f1 + ";" + g2 + ";" + f2 + ";" + g4 + ";" + second
 }
 
@@ -504,6 +520,20 @@ var slInts = []string{"0", "1", "-1", "7", "42", "-42", "255", "65536", "2147483
 var slFloats = []string{"0.5", "1.5", "-2.25", "3.0", "-0.0", "0.0", "100.0", "-7.0", "4.9e-324", "1e308", "-1e308", "1.7976931348623157e308",
 	"1.0/0", "-1.0/0", "0.0/0*1.0", "0.1", "1e21", "1e-7", "9007199254740992.0", "9223372036854775808.0", "-9223372036854775808.0",
 	"1e15", "123456789.125", "2.5e-3", "1e22", "1e23", "0.30000000000000004", "5e-324*3"}
+
+// integral floats of every digit count and both signs: Float.Inspect decides by the TEXT whether ".0" has to be
+// appended for the value to read back as a float (the int64 boundary is 19 digits, 20 characters with the sign)
+func init() {
+	for k := 0; k <= 23; k++ {
+		for _, m := range []string{"1", "-1", "1.5", "-1.5", "9.75", "-9.75", "-1.2345678901234568", "4", "-4", "-9.2", "9.2"} {
+			if k == 0 && strings.Contains(m, ".") {
+				continue
+			}
+			slFloats = append(slFloats, fmt.Sprintf("%se%d", m, k))
+		}
+	}
+	slFloats = append(slFloats, "9223372036854774784.0", "-9223372036854774784.0", "9223372036854777856.0", "-9223372036854777856.0")
+}
 
 var slRunes = []string{"\u00e9", "\u00fc", "\u20ac", "\u65e5\u672c", "\U0001F600", "\u00a0", "\u200b", "\u2028", "\ufeff", "\U000e0001", "\u0085", "\ufffd", "\u00ad", "\u0378"}
 
